@@ -30,6 +30,10 @@ CLAIMS = {
          "<= 3 regions, <= 2 (quick) / 3 (thorough) ranges, keys <= 1-2 bytes; the liveness half (convergence to the leader) and store liveness probing are outside. One known finding (LocateEndKey of the empty key)."),
  "C10": ("Reduced claim: one-step lemmas of the replica selector over arbitrary selector states (a write never carries replica/stale read, the target was a candidate, attempt counters grow, onUpdateLeader is the only decrease), validateReadTS mapping, and the real SendReqCtx over fault scripts from a 15-event alphabet with a harness client: retry flag discipline, no fabricated success, sleep within budget.",
          "3 replicas; scripts <= 1 (quick) / 2-3 (thorough) events; selector step harnesses use function seams on isCandidate/calculateScore (composition argument in props); forwarding/proxy paths and slowness scores outside."),
+ "C11": ("The real rawkv.Client (Get/Put/Delete/CAS, BatchGet/BatchPut/BatchDelete, Scan/ReverseScan, DeleteRange, Checksum) and the kvrpc batch splitters run over the real RegionRequestSender and RegionCache against a harness sorted-map store with symbolic keys, values and region layout and one optional topology change per call; results equal the same operation on the map (positional alignment, first `limit` pairs across borders, exactly [start,end) removed).",
+         "<= 2-4 stored keys of <= 2 bytes, <= 2-3 regions, limit <= 2-3, one topology change per call; TTL/column families, leader changes and store failures outside."),
+ "C14": ("ResolveLocksForRange over a harness RegionLockResolver and through the real resolver (scan, BatchResolveLocks) with symbolic lock populations, scan limit 2-3 and an injected split; BatchResolveLocks statuses; rangetask.Runner.RunOnRange tiling with 1-2 workers; DeleteRangeTask clipping; CheckVisibility against the cached safe point.",
+         "<= 3-4 locks, <= 2-3 regions, one split/epoch bump; async-commit/txn-file/shared locks in BatchResolveLocks, KVStore.GC and the PD controller outside."),
  "C12": ("The real mock-TiKV MVCC code runs over a harness ordered map in place of goleveldb (function seams); 20 algebraic laws after symbolic command prefixes with symbolic, pairwise distinct 64-bit timestamps: idempotence, never commit and rollback, rejection after a final state, Get/Scan/ReverseScan/BatchGet/ScanLock vs an independent decode of the records, resolve, GC, heartbeat, min-commit-ts push, TiKV-defined pessimistic cases.",
          "2 keys, 2 transactions, prefixes <= 2 (quick) / 3 (thorough) commands on top of 6 base histories; the response-by-response reference model, rpc.go and the deadlock detector are outside; harnesses replay through the interpreter (function seams)."),
  "C13": ("ComposeTS/Extract algebra for all physical < 2^45 and logical < 2^18, expiry consistency for all 63-bit timestamps, setLastTS under compare-and-swap interference (function seam on atomic.Pointer.CompareAndSwap), low-resolution cache sequences with out-of-order futures, ValidateReadTS with the real singleflight and goroutines, the commit-wait loop, and the local oracle.",
@@ -39,7 +43,7 @@ CLAIMS = {
  "C18": ("Reduced claim: id allocation, dispatch by id, exactly-once completion, failRequestsByIDs/failPendingRequests, the builder and the priority queue, one batchRecvLoop iteration per scripted stream and sendBatchRequest's selects with forked readiness.",
          "<= 4 entries, <= 2 hosts. The property's quantifier over goroutine schedules, stream re-creation races and shutdown is OUTSIDE the claim (not addressable by this technique)."),
 }
-GREEN = ["C03", "C04", "C05", "C06", "C07", "C08", "C09", "C10", "C12", "C13", "C15", "C16", "C17", "C18", "C19", "C20"]
+GREEN = ["C03", "C04", "C05", "C06", "C07", "C08", "C09", "C10", "C11", "C12", "C14", "C13", "C15", "C16", "C17", "C18", "C19", "C20"]
 CLAIMS = {k: v for k, v in CLAIMS.items() if k in GREEN}
 NA = {
  "C01": "whole-system histories x schedules with the store in the loop: no unit decomposition preserves the statement and the whole-program concurrent run is outside what a symbolic interpreter + SMT can encode (DESIGN.md §4); client-local obligations are decided under C03/C04/C05/C12/C13",
